@@ -49,6 +49,11 @@ class StepLimit(Exception):
     pass
 
 
+class LoopBound(Exception):
+    """a loop was unrolled beyond the world's loop_bound: the path is abandoned (reported as a
+    bound of the analysis, never as a verdict)"""
+
+
 # ------------------------------------------------------------------------------------ values
 
 class Ref:
@@ -149,6 +154,86 @@ class Opaque:
 
     def __deepcopy__(self, memo):
         return self
+
+
+class Iter:
+    """iterator into a modelled sequence"""
+
+    def __init__(self, seq, pos, step=1):
+        self.seq = seq
+        self.pos = pos
+        self.step = step
+
+    def __deepcopy__(self, memo):
+        return Iter(self.seq, self.pos, self.step)
+
+    def __eq__(self, o):
+        return isinstance(o, Iter) and o.seq is self.seq and o.pos == self.pos and o.step == self.step
+
+    def __hash__(self):
+        return hash((id(self.seq), self.pos, self.step))
+
+    def deref(self):
+        i = self.pos if self.step == 1 else self.pos - 1
+        if i < 0 or i >= len(self.seq):
+            raise AnalysisBroken("interp: iterator dereferenced out of range")
+        return ElemRef(self.seq, i)
+
+
+class Poly:
+    """polynomial with integer coefficients over opaque commutative symbols (free algebra):
+    an exact abstract domain for code that only adds and multiplies opaque quantities"""
+
+    def __init__(self, terms=None):
+        self.terms = {k: v for k, v in (terms or {}).items() if v != 0}
+
+    @staticmethod
+    def sym(name):
+        return Poly({(name,): 1})
+
+    @staticmethod
+    def of(x):
+        if isinstance(x, Poly):
+            return x
+        if isinstance(x, bool):
+            x = int(x)
+        if isinstance(x, (int, float)) and float(x) == int(x):
+            return Poly({(): int(x)})
+        raise AnalysisBroken("poly: cannot lift %r" % (x,))
+
+    def __add__(self, o):
+        o = Poly.of(o)
+        t = dict(self.terms)
+        for k, v in o.terms.items():
+            t[k] = t.get(k, 0) + v
+        return Poly(t)
+
+    def __mul__(self, o):
+        o = Poly.of(o)
+        t = {}
+        for k1, v1 in self.terms.items():
+            for k2, v2 in o.terms.items():
+                k = tuple(sorted(k1 + k2))
+                t[k] = t.get(k, 0) + v1 * v2
+        return Poly(t)
+
+    def __eq__(self, o):
+        try:
+            return self.terms == Poly.of(o).terms
+        except AnalysisBroken:
+            return False
+
+    def __hash__(self):
+        return hash(tuple(sorted(self.terms.items())))
+
+    def __deepcopy__(self, memo):
+        return self
+
+    def __repr__(self):
+        if not self.terms:
+            return "0"
+        return " + ".join(("%d*" % v if v != 1 else "") + "*".join(k) if k else str(v)
+                          for k, v in sorted(self.terms.items()))
 
 
 class Closure:
@@ -646,7 +731,7 @@ class Interp:
             if not isinstance(r, Ref):
                 raise AnalysisBroken("interp: ++ on rvalue")
             old = r.get()
-            new = self.arith("+" if op == "++" else "-", old, 1)
+            new = self.wrap(fr, e, self.arith("+" if op == "++" else "-", old, 1))
             r.set(new)
             return old if e.get("post") else r
         v = self.eval(e["e"], fr)
@@ -667,10 +752,25 @@ class Interp:
             return x
         raise AnalysisBroken("interp: unary %s" % op)
 
+    def wrap(self, fr, e, v):
+        """modular arithmetic of unsigned integer types"""
+        if isinstance(v, int) and not isinstance(v, bool) and (v < 0 or v >= (1 << 32)):
+            t = fr.fn.type(e.get("t"))
+            if t.startswith("unsigned") or t in ("size_t", "std::size_t"):
+                bits = 64 if "long" in t else 8 if "char" in t else 16 if "short" in t else 32
+                return v % (1 << bits)
+        return v
+
     def arith(self, op, a, b):
         a, b = self.rv(a), self.rv(b)
         if isinstance(a, Interval) or isinstance(b, Interval):
             return interval_binop(op, a, b)
+        if isinstance(a, Poly) or isinstance(b, Poly):
+            if op == "+":
+                return Poly.of(a) + Poly.of(b)
+            if op == "*":
+                return Poly.of(a) * Poly.of(b)
+            raise AnalysisBroken("interp: operator %s on symbolic polynomial values" % op)
         if not isinstance(a, (int, float, bool)) or not isinstance(b, (int, float, bool)):
             return self.world.sym_binop(op, a, b)
         if isinstance(a, bool):
@@ -765,7 +865,7 @@ class Interp:
         if op in ("+=", "-=", "*=", "/=", "%="):
             v = self.eval(e["rhs"], fr)
             r = self.eval(e["lhs"], fr)
-            return self.assign(fr, e, r, self.arith(op[0], r, v))
+            return self.assign(fr, e, r, self.wrap(fr, e, self.arith(op[0], r, v)))
         if op == ",":
             self.eval(e["lhs"], fr)
             return self.eval(e["rhs"], fr)
@@ -774,7 +874,7 @@ class Interp:
         if op in CMP_OPS:
             return self.compare(op, a, b, e)
         if op in ARITH:
-            return self.arith(op, a, b)
+            return self.wrap(fr, e, self.arith(op, a, b))
         if op == "^":
             x, y = self.rv(a), self.rv(b)
             if isinstance(x, bool) and isinstance(y, bool):
@@ -876,17 +976,26 @@ class Interp:
         args_n = e.get("a", [])
         op = e.get("op")
 
+        memo = {}
+
         def A(i):
-            return self.eval(args_n[i], fr)
+            if i not in memo:
+                memo[i] = self.eval(args_n[i], fr)
+            return memo[i]
 
         def V(i):
             return self.rv(A(i))
+
+        def OBJ():
+            if "obj" not in memo:
+                memo["obj"] = self.eval(e["obj"], fr)
+            return memo["obj"]
 
         if bn in ("std::move", "std::forward", "std::as_const", "std::addressof"):
             return A(0)
         if name == "operator=" and e.get("lib") and e.get("fid") is None and e.get("obj") is not None:
             # defaulted copy / move assignment of a library record: member-wise copy
-            r = self.eval(e["obj"], fr)
+            r = OBJ()
             return self.assign(fr, e, r, A(0))
         if bn in ("std::max", "std::min"):
             a, b = A(0), A(1)
@@ -941,18 +1050,36 @@ class Interp:
                 return v[ta[0]]
             raise AnalysisBroken("interp: std::get on %r" % (v,))
         if bn == "std::function::operator()":
-            f = self.rv(self.eval(e["obj"], fr))
-            return self.call_closure(f, [self.eval(a, fr) for a in args_n], e)
+            f = self.rv(OBJ())
+            return self.call_closure(f, [A(i) for i in range(len(args_n))], e)
         if bn in ("std::function::operator bool", "std::function::<conv>"):
-            f = self.rv(self.eval(e["obj"], fr))
+            f = self.rv(OBJ())
             return f is not None
         if bn == "std::function::operator=":
-            r = self.eval(e["obj"], fr)
+            r = OBJ()
             return self.assign(fr, e, r, A(0))
+        # iterators ------------------------------------------------------------------------
+        ops_all = ([OBJ()] if e.get("obj") is not None else []) + \
+            ([A(i) for i in range(len(args_n))] if op is not None else [])
+        if op is not None and ops_all and isinstance(self.rv(ops_all[0]), Iter):
+            itv = self.rv(ops_all[0])
+            if op == "*":
+                return itv.deref()
+            if op in ("++", "--"):
+                ref = ops_all[0]
+                d = 1 if op == "++" else -1
+                new_it = Iter(itv.seq, itv.pos + d * itv.step, itv.step)
+                if isinstance(ref, Ref):
+                    ref.set(new_it)
+                return itv if len(args_n) > (0 if e.get("obj") is not None else 1) else (ref if isinstance(ref, Ref) else new_it)
+            if op in ("==", "!=") and len(ops_all) == 2:
+                other = self.rv(ops_all[1])
+                r = isinstance(other, Iter) and other.seq is itv.seq and other.pos == itv.pos
+                return r if op == "==" else not r
         # containers -----------------------------------------------------------------------
         cls = e.get("cls", "")
         if cls in ("std::vector", "std::array", "std::initializer_list", "std::deque"):
-            obj = self.eval(e["obj"], fr)
+            obj = OBJ()
             c = self.rv(obj)
             if not isinstance(c, list):
                 raise AnalysisBroken("interp: %s on unmodelled container %r at %s" % (bn, c, fr.fn.loc(e)))
@@ -994,8 +1121,14 @@ class Interp:
                 v = V(0)
                 c[:] = copy.deepcopy(list(v))
                 return obj
-            if name in ("begin", "end", "cbegin", "cend"):
-                return ("iter", c, 0 if name in ("begin", "cbegin") else len(c))
+            if name in ("begin", "cbegin"):
+                return Iter(c, 0, 1)
+            if name in ("end", "cend"):
+                return Iter(c, len(c), 1)
+            if name in ("rbegin", "crbegin"):
+                return Iter(c, len(c), -1)
+            if name in ("rend", "crend"):
+                return Iter(c, 0, -1)
             if name == "resize":
                 n = V(0)
                 fill = V(1) if len(args_n) > 1 else None
@@ -1005,7 +1138,7 @@ class Interp:
                     c.append(copy.deepcopy(fill))
                 return None
         if cls in ("std::queue", "std::priority_queue", "std::stack"):
-            obj = self.eval(e["obj"], fr)
+            obj = OBJ()
             c = self.rv(obj)
             if isinstance(c, Opaque):
                 c = PyVec()
@@ -1053,7 +1186,7 @@ class Interp:
                     c.pop(best)
                     return None
         if cls in ("std::map", "std::unordered_map"):
-            obj = self.eval(e["obj"], fr)
+            obj = OBJ()
             c = self.rv(obj)
             if isinstance(c, dict):
                 if name == "operator[]":
@@ -1075,13 +1208,13 @@ class Interp:
                             c[kv[0]] = kv[1]
                         return None
         if cls in ("std::shared_ptr", "std::__shared_ptr", "std::unique_ptr", "std::__shared_ptr_access"):
-            obj = self.eval(e["obj"], fr)
+            obj = OBJ()
             if name in ("operator->", "operator*", "get"):
                 return obj
             if name in ("operator bool", "<conv>"):
                 return self.rv(obj) is not None
         if op in CMP_OPS:
-            ops = ([self.eval(e["obj"], fr)] if e.get("obj") is not None else []) + [self.eval(a, fr) for a in args_n]
+            ops = ([OBJ()] if e.get("obj") is not None else []) + [A(i) for i in range(len(args_n))]
             if len(ops) == 2:
                 return self.compare(op, ops[0], ops[1], e)
         raise AnalysisBroken("interp: library call %s is not modelled (at %s: %s)"
@@ -1139,7 +1272,12 @@ class Interp:
                     self.eval(s["inc"], fr)
             return
         if k == "while":
+            n_iter = 0
             while self.truth(self.eval(s["c"], fr), s["c"]):
+                n_iter += 1
+                bound = getattr(self.world, "loop_bound", None)
+                if bound is not None and n_iter > bound:
+                    raise LoopBound(fr.fn.loc(s))
                 try:
                     self.exec(s.get("body"), fr)
                 except BreakEx:
